@@ -36,7 +36,7 @@ class Report(object):
         if r.get('status') == 'error':
             self.inconclusive.append('%s: machinery error: %s' % (tag, (r.get('notes') or [''])[0][:300]))
             return False
-        if r.get('status') in ('rejected', 'no_dsp_io', 'skipped_large_state'):
+        if r.get('status') in ('rejected', 'no_dsp_io', 'skipped_large_state', 'inductive_not_applicable'):
             self.skipped.append('%s: %s' % (r.get('program'), r['status']))
             return False
         self.programs.add(r.get('program'))
